@@ -6,7 +6,7 @@
 (* One initial state per instance, one step per theorem (tables memoised in  *)
 (* the state variable m).                                                    *)
 EXTENDS PoissonLL, TLC
-CONSTANTS MaxLam, NumPatterns, MaxSubsets
+CONSTANTS MaxLam, NumPatterns, MaxSubsets, FullX
 VARIABLES c, k, m
 
 NV == 3
@@ -33,7 +33,7 @@ AOf(p) == [b \in 1..10 |-> IF p = 0 THEN 0 ELSE Pat(p, b, 0, 2)]
 ROf(p) == [b \in 1..10 |-> Pat(p, b, 0, 2)]
 EOf(p) == [b \in 1..10 |-> IF p = 0 THEN 0 ELSE Pat(p, b, -2, 0)]
 
-Raw == [rows : {Rows1, Rows2}, lam : [1..NV -> 1..MaxLam], x : [1..NV -> 0..1], z : { <<1, 0, 2>>, <<0, 1, 1>> },
+Raw == [rows : {Rows1, Rows2}, lam : [1..NV -> 1..MaxLam], x : (IF FullX THEN [1..NV -> 0..1] ELSE { <<1, 0, 1>>, <<0, 1, 1>> }), z : { <<1, 0, 2>>, <<0, 1, 1>> },
         ap : 0..(NumPatterns - 1), rp : 0..(NumPatterns - 1), ep : 0..(NumPatterns - 1),
         zero : BOOLEAN, maxSeg : 0..1, N : 1..MaxSubsets, uss : BOOLEAN]
 Inst(q) ==
